@@ -35,14 +35,14 @@ const gas = 100000000 // 1 GAS in datoshi
 
 // acct is a signer the harness can produce witnesses for.
 type acct struct {
-	Name  string
-	M     int
-	Privs []*keys.PrivateKey // in the order of the keys inside the verification script
-	Ver   []byte
-	Hash  util.Uint160
-	Std   bool                                      // standard signature / multi-signature contract
-	Inv   func(tx *transaction.Transaction) []byte // invocation script of a non-standard witness
-	Scope transaction.WitnessScope                 // scope to use in a signer (0 = Global)
+	Name      string
+	M         int
+	Privs     []*keys.PrivateKey // in the order of the keys inside the verification script
+	Ver       []byte
+	Hash      util.Uint160
+	Std       bool                                     // standard signature / multi-signature contract
+	Inv       func(tx *transaction.Transaction) []byte // invocation script of a non-standard witness
+	NoneScope bool                                     // the signer must have the None scope (native contracts, oracle nodes)
 }
 
 var (
@@ -142,7 +142,7 @@ func (a *acct) witness(magic uint32, tx *transaction.Transaction) transaction.Wi
 // signature of a designated notary node and an empty verification script.
 func notaryAcct(magic uint32) *acct {
 	k := chainx.Acc(4).PrivateKey()
-	return &acct{Name: "notary", Hash: nativehashes.Notary, Scope: transaction.None, Inv: func(tx *transaction.Transaction) []byte {
+	return &acct{Name: "notary", Hash: nativehashes.Notary, NoneScope: true, Inv: func(tx *transaction.Transaction) []byte {
 		return pushSig(k.SignHashable(magic, tx))
 	}}
 }
@@ -150,14 +150,27 @@ func notaryAcct(magic uint32) *acct {
 // ---- transaction builder ---------------------------------------------------------
 
 type txSpec struct {
-	Label    string // determines the nonce
-	Signers  []*acct
-	Script   []byte
-	Attrs    []transaction.Attribute
-	SysFee   int64
-	VUB      uint32 // 0 = height+5
-	NetDelta int64  // added to the calculator's fee
-	Rich     int    // 1: the sender gets scopes with contracts, groups and rules (more sites with alternative spellings); 2: all signers get long lists (size)
+	Label        string // determines the nonce
+	Signers      []*acct
+	Script       []byte
+	Attrs        []transaction.Attribute
+	SysFee       int64
+	VUB          uint32 // 0 = height+5
+	NetDelta     int64  // added to the calculator's fee
+	GlobalScopes bool   // give Global scope even to the signers that need None (a fault)
+	Rich         int    // 1: the sender gets scopes with contracts, groups and rules (more sites with alternative spellings); 2: all signers get long lists (size)
+}
+
+// sysFeeOracle as the system fee of a specification: the system fee is set so
+// that system + network fee is exactly what the pending oracle request
+// reserved for its response (the native Oracle contract, the sender, holds
+// exactly that).
+const sysFeeOracle = -99
+
+func fixSysFee(sp *txSpec, tx *transaction.Transaction) {
+	if sp.SysFee == sysFeeOracle {
+		tx.SystemFee = oracleRequestGas - tx.NetworkFee
+	}
 }
 
 func nonceOf(label string) uint32 { return crc32.ChecksumIEEE([]byte(label)) }
@@ -208,10 +221,10 @@ func unsigned(height uint32, sp *txSpec) *transaction.Transaction {
 	}
 	for i, a := range sp.Signers {
 		s := transaction.Signer{Account: a.Hash, Scopes: transaction.Global}
-		if (sp.Rich > 1 || (sp.Rich == 1 && i == 0)) && a.Hash != nativehashes.Notary {
+		if (sp.Rich > 1 || (sp.Rich == 1 && i == 0)) && !a.NoneScope {
 			s = richSigner(a.Hash, sp.Rich)
 		}
-		if a.Hash == nativehashes.Notary {
+		if a.NoneScope && !sp.GlobalScopes {
 			s.Scopes = transaction.None
 		}
 		tx.Signers = append(tx.Signers, s)
@@ -265,7 +278,11 @@ func calcFeeGas(bc *core.Blockchain, magic uint32, tx *transaction.Transaction, 
 		netFee += consumed
 		size += io.GetVarSize(w.InvocationScript) + io.GetVarSize(w.VerificationScript)
 	}
-	netFee += int64(size)*bc.FeePerByte() + bc.CalculateAttributesFee(tx)
+	attrFee, err := attrFeeRef(bc, tx)
+	if err != nil {
+		return 0, 0, nil, err
+	}
+	netFee += int64(size)*bc.FeePerByte() + attrFee
 	return netFee, size, gasOf, nil
 }
 
@@ -295,6 +312,7 @@ func build(n *chainx.Node, sp *txSpec) (*transaction.Transaction, int64, error) 
 	if tx.NetworkFee < 0 {
 		tx.NetworkFee = 0
 	}
+	fixSysFee(sp, tx)
 	sign(magic, tx, sp.Signers)
 	if got := len(tx.Bytes()); got != size {
 		return tx, calc, fmt.Errorf("calculator size %d != serialised size %d", size, got)
@@ -523,6 +541,7 @@ type state struct {
 	Name    string
 	Hist    []int
 	Blocked map[util.Uint160]bool
+	Oracle  bool // account 3 is the designated oracle node and request 0 is pending
 }
 
 func famSingle(extra func(*config.Blockchain)) chainx.Family {
